@@ -120,6 +120,22 @@ def check_c01(opts):
                 continue        # the plain pipeline itself raises on this input (e.g. first after a filter that keeps nothing): outside the property
             if mux != exp:
                 fails.append({'pipeline': names, 'input': items, 'key': 'i % 3', 'expected_per_group(plain)': exp, 'got(mux)': mux})
+    # take / first on a multiplexed key do not end the key: what lies behind the cut is still evaluated upstream
+    def to_int(s):
+        return int(s)
+    src = [('a', '1'), ('b', '5'), ('a', 'n/a'), ('b', '6')]
+    got = run_mux(src, rs.ops.group_by(lambda i: i[0], rx.pipe(rs.ops.map(lambda i: to_int(i[1])), rs.ops.take(1), rs.data.to_list())))
+    exp = [run_plain([x for x in src if x[0] == k], rs.ops.map(lambda i: to_int(i[1])), rs.ops.take(1), ops.to_list())[0] for k in ('a', 'b')]
+    evals += 1
+    if got != exp:
+        fails.append({'case_id': 'behind-the-cut:map(int),take(1)', 'pipeline': ['map(int)', 'take(1)', 'to_list'], 'input': src, 'key': 'item[0]', 'expected_per_group(plain)': exp, 'got(mux)': got})
+    src = [1, 2, 3]
+    app = lambda: rs.ops.scan(lambda a, i: (a.append(i), a)[1], list)
+    got = run_mux(src, app(), rs.ops.take(1), rs.ops.last(), rs.ops.map(list))
+    exp = run_plain(src, app(), rs.ops.take(1), rs.ops.last(), rs.ops.map(list))
+    evals += 1
+    if got != exp:
+        fails.append({'case_id': 'behind-the-cut:scan(append),take(1),last', 'pipeline': ['scan(list append, mutating)', 'take(1)', 'last'], 'input': src, 'expected(plain)': exp, 'got(mux)': got})
     # two levels of keys: group_by(i % 2) > group_by(i % 3): consecutive items with the same inner key under different outer keys, and vice versa
     nested_inputs = [[0, 3, 6, 1, 4, 2], [1, 4, 7, 2, 5, 8, 3], [6, 3, 0, 9, 2, 5, 4, 1], [3, 0, 1, 4, 9, 6]]
     for pipe in [[o] for o in OPS]:
@@ -270,7 +286,8 @@ def check_c03(opts):
         if i == 'bad': raise ValueError(i)
         return i
     spawners = [('roll(3,1)', lambda inner: rs.data.roll(3, 1, inner)), ('roll(2,2)', lambda inner: rs.data.roll(2, 2, inner)),
-                ('split(i>3)', lambda inner: rs.data.split(lambda i: i > 3, inner)), ('time_split(10,5)', lambda inner: rs.data.time_split(lambda i: i, 10, 5, pipeline=inner))]
+                ('split(i>3)', lambda inner: rs.data.split(lambda i: i > 3, inner)), ('time_split(10,5)', lambda inner: rs.data.time_split(lambda i: i, 10, 5, pipeline=inner)),
+                ('group_by(i%2)', lambda inner: rs.ops.group_by(lambda i: i % 2, inner))]
     for sname, mk in spawners:
         for items in ([1, 2, 'bad', 4, 5, 6], ['bad', 1, 2, 3], [1, 2, 3, 'bad']):
             log = []
@@ -278,10 +295,12 @@ def check_c03(opts):
             out = run_mux(items, T('a'), rs.ops.map(boom), T('b'), mk(rx.pipe(T('in0'), rs.data.to_list(), T('in1'), rs.error.ignore())), T('c'), rs.error.ignore(), T('z'))
             evals += 1; distinct.add((sname, 'error', tuple(items)))
             bad = wf_violations(log)
+            if isinstance(out, tuple) and out and out[0] == 'ERROR':
+                bad.append(('pipeline', f'the stream ends with {out[1]}'))
             if bad:
                 fails.append({'case_id': f'mux-error-crossing:{sname}:{items}', 'pipeline': f'map(raises on "bad") > {sname}[to_list, error.ignore] > error.ignore', 'input': items,
                               'violations': [f'{n}: {m}' for n, m in bad[:4]], 'output': str(out)[:120]})
-    return result('e2e.C03.protocol_monitor', '16 nestings of group_by / roll / split / time_split / tee_map, taps at every boundary, 5 inputs (incl. empty); a mux error crossing roll / split / time_split before it is handled, 3 inputs',
+    return result('e2e.C03.protocol_monitor', '16 nestings of group_by / roll / split / time_split / tee_map, taps at every boundary, 5 inputs (incl. empty); a mux error crossing roll / split / time_split / group_by before it is handled, 3 inputs',
                   evals, len(distinct), fails, False, t0)
 
 
@@ -621,6 +640,22 @@ def check_c09(opts):
     got = run_mux([], rs.ops.scan(lambda a, i: a + i, 7, reduce=True))
     evals += 1
     if got != [7]: fails.append({'pipeline': 'scan(add, 7, reduce=True) on empty source', 'expected': [7], 'got': got})
+    # a terminator may return a value of another type than the accumulator's: it is emitted as is (plain and multiplexed alike)
+    for sname, acc, seed, term in (('bool seed, terminator -> 7', lambda a, i: a or i > 1, False, lambda a: 7), ('int seed, terminator -> float', lambda a, i: a + i, 0, lambda a: a / 4),
+                                   ('float seed, terminator -> str', lambda a, i: a + i, 0.0, lambda a: f'total={a}'), ('int seed, terminator -> None', lambda a, i: a + i, 0, lambda a: None)):
+        for red in (True, False):
+            got = run_mux([1, 2, 3], rs.ops.scan(acc, seed, reduce=red, terminator=term))
+            exp = run_plain([1, 2, 3], rs.ops.scan(acc, seed, reduce=red, terminator=term))
+            evals += 1
+            if got != exp or [type(x) for x in got] != [type(x) for x in exp]:
+                fails.append({'pipeline': f'scan({sname}, reduce={red})', 'input': [1, 2, 3], 'expected(plain)': exp, 'got(mux)': got})
+    # an int accumulator that leaves the signed 64-bit range (python ints do not overflow; the plain scan is unaffected)
+    big = [2 ** 62, 2 ** 62, 2 ** 62]
+    got = run_mux(big, rs.ops.scan(lambda a, i: a + i, 0))
+    exp = run_plain(big, rs.ops.scan(lambda a, i: a + i, 0))
+    evals += 1
+    if got != exp:
+        fails.append({'case_id': 'int64-state:scan(add,0)', 'pipeline': 'scan(lambda a, i: a + i, 0)', 'input': ['2**62'] * 3, 'expected(plain)': exp, 'got(mux)': str(got)[:160]})
     # operators defined through scan with an object seed built by a factory (dist.update) or a tuple state (progress): one accumulator per key
     try:
         import distogram
